@@ -197,12 +197,24 @@ def _hex(s):
         return None
 
 
-def strace_threads(recs, main_pid, h_pid):
-    """Per thread created by H: its stack mapping and what the thread itself did.
-    Returns (attempts, stray) where attempts is the list (in H's program order) of
-    {"mmap": {...}|None, "clone": {...}|None, "child": pid|None, ...summary...}."""
-    stack_maps = []   # H's stack-sized anonymous mmaps, in order
-    clones = []       # H's clone attempts, in order
+def detect_stack_size(recs, h_pid, stack_addrs):
+    """The size spawn maps for a stack: the size of the owner's mmaps that returned the addresses the
+    probe saw at protocol point 3 (so a different stack size in the code is not a surprise)."""
+    sizes = {}
+    for r in recs:
+        if r["pid"] == h_pid and r["call"] == "mmap" and r["ret"] and r["ret"].startswith("0x") and _hex(r["ret"]) in stack_addrs:
+            a = [x.strip() for x in r["args"].split(",")]
+            if len(a) >= 2 and a[1].isdigit():
+                sizes[int(a[1])] = sizes.get(int(a[1]), 0) + 1
+    if not sizes:
+        return STACK_SZ
+    return max(sizes.items(), key=lambda kv: kv[1])[0]
+
+
+def strace_threads(recs, main_pid, h_pid, stack_sz):
+    """The owner's stack-sized anonymous mmaps and its clone attempts, in its program order."""
+    stack_maps = []
+    clones = []
     by_pid = {}
     for r in recs:
         by_pid.setdefault(r["pid"], []).append(r)
@@ -210,7 +222,7 @@ def strace_threads(recs, main_pid, h_pid):
             continue
         if r["call"] == "mmap":
             a = [x.strip() for x in r["args"].split(",")]
-            if len(a) >= 2 and a[0] == "NULL" and a[1] == str(STACK_SZ):
+            if len(a) >= 2 and a[0] == "NULL" and a[1] == str(stack_sz):
                 stack_maps.append(r)
         elif r["call"] in ("clone", "clone3"):
             clones.append(r)
@@ -553,7 +565,9 @@ def normalise(run):
 
 def attach_strace(run, order, info, batches):
     recs = run.strace
-    stack_maps, clones, by_pid = strace_threads(recs, info["main"], info["h"])
+    ssz = detect_stack_size(recs, info["h"], {t.addr["stack"] for t in order if "stack" in t.addr})
+    info["stack_sz"] = ssz
+    stack_maps, clones, by_pid = strace_threads(recs, info["main"], info["h"], ssz)
     info["strace_stack_maps"] = len(stack_maps)
     info["strace_clones"] = len(clones)
     info["injected"] = [r for r in recs if "INJECTED" in (r.get("note") or "")]
@@ -581,7 +595,7 @@ def attach_strace(run, order, info, batches):
             c = clones[ci]
             ci += 1
             t.clone_rec = c
-            s = thread_summary(recs, by_pid, c, base, STACK_SZ)
+            s = thread_summary(recs, by_pid, c, base, ssz)
             if s is not None:
                 t.sys = s
                 if s["own"] >= 1 and s["whole"]:
@@ -590,8 +604,8 @@ def attach_strace(run, order, info, batches):
             # no thread came out of this spawn: did the spawner itself unmap the stack again?
             nxt = stack_maps[mi]["pos"] if mi < len(stack_maps) else 10**12
             t.h_unmaps = [r for r in recs if r["pid"] == info["h"] and r["call"] == "munmap" and m["rpos"] < r["pos"] < nxt
-                          and _overlaps(r, base, STACK_SZ)]
-            whole = [r for r in t.h_unmaps if _hex(r["args"].split(",")[0]) == base and int(r["args"].split(",")[1]) == STACK_SZ]
+                          and _overlaps(r, base, ssz)]
+            whole = [r for r in t.h_unmaps if _hex(r["args"].split(",")[0]) == base and int(r["args"].split(",")[1]) == ssz]
             if whole:
                 live_stacks -= 1
     for b in batches[-1:]:
